@@ -721,6 +721,8 @@ def ccTable : List CcCfg := [
                     s = b"\r\n" * rng.range(300, 700) + s
                 for how in ("few", "many"):
                     lines = ["port telnet"]
+                    if rng.chance(1, 3):
+                        lines.append("snoop on")    # NOECHO input is not forwarded to the snooper
                     if rng.chance(1, 2):
                         lines.append("chunk " + hx(bytes([IAC, rng.choice([WILL, WONT]), rng.choice([LM, TT, SGA])])))
                     for c in self.segment(rng, s, how):
